@@ -35,6 +35,8 @@ type tab struct {
 	p    ec.Point
 	pow  []ec.Point
 	memo map[string]ec.Point
+	win  [][]ec.Point // optional (wide): win[i][d] = [d * 2^(6i)]P, filled on demand, d = 1..63
+	wide bool
 }
 
 func newTab(p ec.Point) *tab { return &tab{p: p, pow: []ec.Point{p}} }
@@ -46,8 +48,32 @@ func (t *tab) at(i int) ec.Point {
 	return t.pow[i]
 }
 
+// digit returns [d * 2^(6i)]P, built by repeated addition of [2^(6i)]P and remembered.
+func (t *tab) digit(i int, d uint) ec.Point {
+	for len(t.win) <= i {
+		t.win = append(t.win, []ec.Point{ec.Infinity})
+	}
+	for uint(len(t.win[i])) <= d {
+		t.win[i] = append(t.win[i], ec.Add(t.win[i][len(t.win[i])-1], t.at(6*i)))
+	}
+	return t.win[i][d]
+}
+
 func (t *tab) mul(k *big.Int) ec.Point {
 	r := ec.Infinity
+	if t.wide && k.BitLen() > 64 {
+		// the same sum of multiples of P, grouped six bits at a time
+		for i, n := 0, (k.BitLen()+5)/6; i < n; i++ {
+			var d uint
+			for b := 0; b < 6; b++ {
+				d |= k.Bit(6*i+b) << uint(b)
+			}
+			if d != 0 {
+				r = ec.Add(r, t.digit(i, d))
+			}
+		}
+		return r
+	}
 	for i, n := 0, k.BitLen(); i < n; i++ {
 		if k.Bit(i) == 1 {
 			r = ec.Add(r, t.at(i))
@@ -79,7 +105,7 @@ func (t *tab) mulSplit(hi, lo *big.Int) ec.Point {
 	return ec.Add(t.mulMemo(hi), t.mul(lo))
 }
 
-var gTab = newTab(ec.G)
+var gTab = &tab{p: ec.G, pow: []ec.Point{ec.G}, wide: true}
 
 // refBase returns [k]G for the integer k.
 func refBase(k *big.Int) ec.Point { return gTab.mul(k) }
